@@ -73,6 +73,8 @@ def run_case(rng, tier, case):
         case.reject('unsplit: ' + flow.describe_error(ru)); return
     rs = flow.run_portfolio(spec, split=size)
     if not rs.ok:
+        if rs.stage in ('optimize', 'extract'):
+            case.check('split.optimize_and_extract_work', False, interval=size, stage=rs.stage, error=flow.describe_error(rs)); return
         periodic = any('+periodic' in t for t in gen.asset_types(spec))
         if isinstance(rs.error, (AssertionError,)) or 'concatenate str' in str(rs.error) or "has no attribute 'drop'" in str(rs.error) or (periodic and 'unit abbreviation' in str(rs.error)):
             case.reject('split: ' + flow.describe_error(rs)); return       # periodic assets on interval grids: EAO's domain assertion
